@@ -65,10 +65,13 @@ func (r *run) id() int {
 }
 
 func (r *run) ret(id int, res string) {
+	// the line is written BEFORE the call stops counting as outstanding (both under mu): whoever sees the call
+	// as returned (waitReturned, blocked) is then sure its "ret" line is already in the trace. Emitting after the
+	// unlock let a descheduled goroutine write its line into the next scenario (seen once, at load 100).
 	r.mu.Lock()
+	r.out.Emit(vh.M{"e": "ret", "id": id, "res": res})
 	delete(r.open, id)
 	r.mu.Unlock()
-	r.out.Emit(vh.M{"e": "ret", "id": id, "res": res})
 }
 
 func (r *run) blocked() []int {
@@ -232,6 +235,12 @@ func TestC15Forced(t *testing.T) {
 	}
 }
 
+// stuckAfter is how long (real time) a call that should return is waited for before it is reported as
+// blocked. It returns at once when the call returns, so the length only costs time when something IS stuck
+// (at most three witnesses are collected); it is long because this driver runs in real time and the box may be
+// heavily loaded.
+const stuckAfter = 20 * time.Second
+
 func forcedOne(t *testing.T, out *vh.Out, capacity int, tail string) (popReturned bool) {
 	r := newRun(out, capacity)
 	parked := make(chan struct{})
@@ -286,18 +295,18 @@ func forcedOne(t *testing.T, out *vh.Out, capacity int, tail string) (popReturne
 	// what is still outstanding once things have had ample real time to settle?
 	popReturned = true
 	if tail != "cancel-other" { // there Pop is expected to stay blocked
-		popReturned = r.waitReturned(popID, time.Second)
+		popReturned = r.waitReturned(popID, stuckAfter)
 	} else {
 		time.Sleep(2 * time.Millisecond)
 	}
 	for _, id := range others {
-		r.waitReturned(id, time.Second)
+		r.waitReturned(id, stuckAfter)
 	}
 	out.Emit(vh.M{"e": "quiet", "blocked": r.blocked()})
 	// cleanup: Close releases everything
 	r.close(r.id())
 	for _, id := range append(others, popID) {
-		r.waitReturned(id, 3*time.Second)
+		r.waitReturned(id, 2*stuckAfter)
 	}
 	out.Emit(vh.M{"e": "quiet", "blocked": r.blocked()})
 	for _, f := range r.cancs {
@@ -367,7 +376,7 @@ func TestC15Stress(t *testing.T) {
 			r.close(r.id())
 			select {
 			case <-done:
-			case <-time.After(5 * time.Second):
+			case <-time.After(2 * stuckAfter):
 			}
 		}
 		out.Emit(vh.M{"e": "quiet", "blocked": r.blocked()})
